@@ -68,12 +68,18 @@ func c18Args(n int) string {
 	return "(" + strings.Join(a, ";") + ")"
 }
 
+// c18Probe wraps a variable reference: the value itself, unless it is an array that deletions turn into null (a nil Go
+// slice standing for an empty array: prints like [], is not one).
+func c18Probe(ref string) string {
+	return "(" + ref + " | if (try ((del(.[0]) == null) or (delpaths([[3]]) == null)) catch false) then \"NOT-AN-ARRAY-UNDER-DELETION\" else . end)"
+}
+
 func (k c18Call) src() string {
 	switch k.V {
 	case 1:
-		return "$" + k.N
+		return c18Probe("$" + k.N)
 	case 2:
-		return "$" + k.N + "::" + k.N
+		return c18Probe("$" + k.N + "::" + k.N)
 	}
 	s := k.N
 	if k.Q != "" {
